@@ -64,6 +64,8 @@ type Ctx struct {
 	assumptions []string
 	rule        string
 	exhaustive  bool
+
+	evidencePath string
 }
 
 // Quick reports whether the quick tier was requested.
@@ -275,6 +277,7 @@ func Main(id, level string, body func(c *Ctx)) {
 		c.Replay = r.Witness
 		*evidence = "" // a replay never rewrites evidence
 	}
+	c.evidencePath = *evidence
 	func() {
 		defer func() {
 			if r := recover(); r != nil {
@@ -289,7 +292,14 @@ func Main(id, level string, body func(c *Ctx)) {
 
 // Broken aborts the run as "check broken" (never a verdict).
 func (c *Ctx) Broken(format string, a ...any) {
-	fmt.Fprintf(os.Stderr, "CHECK-BROKEN %s: %s\n", c.ID, fmt.Sprintf(format, a...))
+	msg := fmt.Sprintf(format, a...)
+	fmt.Fprintf(os.Stderr, "CHECK-BROKEN %s: %s\n", c.ID, msg)
+	// If real violations were already recorded, they are the more useful verdict:
+	// report them (exit 1) instead of hiding them behind "broken".
+	if c.NViolations() > 0 {
+		c.Incomplete("harness stopped early: " + msg)
+		os.Exit(c.finish(c.evidencePath))
+	}
 	os.Exit(2)
 }
 
